@@ -398,7 +398,7 @@ pub fn run(case: &Case) -> Vec<(String, String)> {
             // lie 6: fillers behind the first and the last record, every entry's length stretched over the filler
             // behind its record, so that the entries chain by their own lengths up to the end of the file
             let gaps = if *lie == 6 { vec![0, 2, 0, 2] } else if *fillers { vec![2, 0, 4, 2] } else { vec![0; 4] };
-            let c14case = super::c14::Case { ty: *ty, n: 3, perm: perm.clone(), gaps, fill_byte: 0 };
+            let c14case = super::c14::Case { ty: *ty, n: 3, perm: perm.clone(), gaps, fill_byte: 0, stretch: false };
             // lie 7: nothing wrong with the index; the records are stored without their optional M block
             let (shp, mut shx, _) = super::c14::build_m(&c14case, *lie != 7);
             let offs: Vec<i64> = (0..3).map(|i| i32::from_be_bytes(shx[100 + 8 * i..104 + 8 * i].try_into().unwrap()) as i64 * 2).collect();
@@ -452,13 +452,24 @@ pub fn run(case: &Case) -> Vec<(String, String)> {
             }
             // the complete reader (non-consuming bulk reads): after a state-changing call, a generic and a typed
             // bulk read on two readers brought into the same state
-            {
+            // (next to a table of as many rows as there are shapes; of one row more, which cannot be parsed; of one
+            // row less)
+            for tbl in 0..3usize {
                 let dbf = Dev::quiet(vec![]);
                 {
                     let mut tw = crate::table::table_writer(dbf.clone());
-                    for i in 0..3 {
+                    for i in 0..[3usize, 4, 2][tbl] {
                         tw.write_record(&crate::table::good_row(i)).expect("row");
                     }
+                }
+                if tbl == 1 {
+                    let mut b = dbf.data();
+                    if let Some((h, r)) = crate::table::dbf_layout(&b) {
+                        let at = h + 3 * r + 1;
+                        b[at..at + 8].copy_from_slice(b"xx yy zz");
+                    }
+                    let d2 = Dev::quiet(b);
+                    std::mem::swap(&mut *dbf.0.borrow_mut(), &mut *d2.0.borrow_mut());
                 }
                 let open_c = || -> Result<shapefile::Reader<Dev, Dev>, String> {
                     let sr = open().map_err(|e| err_kind(&e))?;
@@ -486,7 +497,7 @@ pub fn run(case: &Case) -> Vec<(String, String)> {
                         prepare(&mut r);
                         r.read_as::<S, shapefile::dbase::Record>().map(|v| v.into_iter().map(|p| from_lib(&Shape::from(p.0))).collect()).map_err(|e| err_kind(&e))
                     }), unreachable!());
-                    routes.push((format!("complete Reader: {} then read / read_as", ["fresh", "after read()", "after one item", "after seek(1)"][pre as usize]), generic, typed));
+                    routes.push((format!("complete Reader{}: {} then read / read_as", ["", " (a surplus row that cannot be parsed)", " (one row less than shapes)"][tbl], ["fresh", "after read()", "after one item", "after seek(1)"][pre as usize]), generic, typed));
                 }
             }
             // by path
@@ -776,7 +787,7 @@ pub fn check(tier: Tier) -> i32 {
             tier,
             level: "model_checking",
             engine: "E2 complete type matrix on the real reader / conversions; files by the library writer (13 types) and by RefCodec (null and mixed-type files)",
-            rule: "all 13 x 14 ordered (requested S, actual T) pairs x files of 1-2 (thorough 3) records over 3 structures, plus files whose last record has any other of the 14 types; every shape value of the C01 quick structure set for the identity / conversion clauses against all 13 target types; bulk conversion with the wrong element at every position of vectors of length 1-3 for all 13 x 13 pairs; hand-encoded 3-record files over {S, another type, null} for every S through ShapeReader::new / with_shx / with_shx with every index entry doubled / the complete Reader; 3-record files of every type located by a hand-made index (4 physical orders x fillers or not x the entries' length fields as they are, 2, 0, +1, -1, i32::MAX, or stretched over the filler behind each record so that they chain; also with the records stored without their optional M block): typed against generic-then-converted for read, iteration, random access at every position, and the complete Reader's bulk reads from four states (in memory) and read_shapes / from_path (on disk); non-trivial = every case",
+            rule: "all 13 x 14 ordered (requested S, actual T) pairs x files of 1-2 (thorough 3) records over 3 structures, plus files whose last record has any other of the 14 types; every shape value of the C01 quick structure set for the identity / conversion clauses against all 13 target types; bulk conversion with the wrong element at every position of vectors of length 1-3 for all 13 x 13 pairs; hand-encoded 3-record files over {S, another type, null} for every S through ShapeReader::new / with_shx / with_shx with every index entry doubled / the complete Reader; 3-record files of every type located by a hand-made index (4 physical orders x fillers or not x the entries' length fields as they are, 2, 0, +1, -1, i32::MAX, or stretched over the filler behind each record so that they chain; also with the records stored without their optional M block): typed against generic-then-converted for read, iteration, random access at every position, and the complete Reader's bulk reads from four states next to a table of as many rows, of one unparsable row more, and of one row less (in memory) and read_shapes / from_path (on disk); non-trivial = every case",
             bounds: json!({"matrix": "13x14 complete", "cases": cases.len()}),
             exhaustive: true,
             assumptions: vec!["type names in errors are compared through their integer codes (Display names are C19's); the text of a mismatch error is only asked to put each type name behind the right one of the words 'request..' / 'actual', when it uses them".into()],
